@@ -15,6 +15,14 @@ Events == ndJsonDeserialize(IOEnv.TRACE_FILE)
 VARIABLE l
 
 Cx == DefaultCx
+\* call options recorded with an event: << <<"omit_none", b>>, <<"by_alias", b>>, <<"dialect", options>> >> (keyword arguments of to_dict /
+\* from_dict, only those the class enabled); no options = the default context
+TriOf(o, k) == IF HasOpt(o, k) THEN (IF GetOpt(o, k, FALSE) THEN "yes" ELSE "no") ELSE "unset"
+CallCx(o) == [DefaultCx EXCEPT !.omit_none = TriOf(o, "omit_none"), !.by_alias = TriOf(o, "by_alias"),
+                               !.dlct = NormDialect(GetOpt(o, "dialect", <<>>))]
+\* ExtraKeysError carries a SET of keys (recorded as an array)
+NormErr(r) == IF r[1] = "err" /\ r[2][1] = "Extra" THEN <<"err", <<"Extra", Range(r[2][2]), r[2][3]>> >> ELSE r
+EvCx(e) == IF Len(e) >= 7 /\ e[7] # <<>> THEN CallCx(e[7]) ELSE DefaultCx
 
 RECURSIVE WireEq(_, _)
 WireEq(e, a) ==
@@ -37,7 +45,7 @@ Listify(w) ==
 \* set of failing clause names for one event ({} = conforms)
 Clauses(e) ==
   CASE e[1] = "Encode" ->
-         LET T == NormT(e[3]) v == NormV(e[4]) res == e[5] exp == Pack(T, Cx, v) IN
+         LET T == NormT(e[3]) v == NormV(e[4]) res == e[5] exp == Pack(T, EvCx(e), v) IN
          IF res[1] # "ok" THEN {"encode-raises"}
          ELSE (IF WireEq(exp, res[2]) THEN {} ELSE {"wire"})
               \cup (IF IsBasic(res[2], {}) \/ e[6] THEN {} ELSE {"not-basic"})
@@ -48,7 +56,7 @@ Clauses(e) ==
          ELSE IF ~IsOk(spec) \/ EqForm(spec[2]) # EqForm(v) THEN {"LOSSY-EXCLUDED"}   \* the statement's exclusions (ambiguous unions ...)
          ELSE IF IsOk(res) /\ EqForm(res[2]) = EqForm(v) THEN {} ELSE {"roundtrip"}
     [] e[1] = "Decode" ->
-         LET T == NormT(e[3]) j == e[4] res == NormR(e[5]) exp == Unpack(T, Cx, j) IN
+         LET T == NormT(e[3]) j == e[4] res == NormErr(NormR(e[5])) exp == Unpack(T, EvCx(e), j) IN
          (IF e[6] THEN {} ELSE {"input-mutated"}) \cup
          (IF IsUnknown(exp) THEN {"UNMODELLED"}
           ELSE IF IsOk(exp) THEN (IF ~IsOk(res) THEN {"decode-rejects"}
@@ -62,9 +70,9 @@ Clauses(e) ==
 
 \* what the reference prescribes for the event (diagnostics in the violation record)
 Expected(e) ==
-  CASE e[1] = "Encode" -> Pack(NormT(e[3]), Cx, NormV(e[4]))
+  CASE e[1] = "Encode" -> Pack(NormT(e[3]), EvCx(e), NormV(e[4]))
     [] e[1] = "Round"  -> Ok(e[4])
-    [] e[1] = "Decode" -> Unpack(NormT(e[3]), Cx, e[4])
+    [] e[1] = "Decode" -> Unpack(NormT(e[3]), EvCx(e), e[4])
     [] OTHER -> <<"none">>
 
 Init == l = 1
